@@ -168,13 +168,26 @@ Qed.
 (* ---- one period -------------------------------------------------------------------------- *)
 Lemma wf_period_parts p : wf_period p = true ->
   length (p_time p) = 10%nat /\ length (p_grid p) = 2%nat /\ length (p_fixed p) = 93%nat
-  /\ length (p_vsys2 p) = 2%nat /\ 0 <= p_nx p <= 999 /\ 0 <= p_ny p <= 999
+  /\ length (p_vsys2 p) = 2%nat /\ 0 <= p_nx p <= 26999 /\ 0 <= p_ny p <= 26999
   /\ lenZ (p_levels p) <= 99 /\ lenh p <= 9999 /\ lenh p <= ncell p
   /\ lenZ (p_pad p) = ncell p - lenh p /\ forallb (wf_lvl (ncell p)) (p_levels p) = true.
 Proof.
   unfold wf_period. intros H. repeat (apply andb_true_iff in H as [H ?]).
   repeat match goal with X : len_is _ _ = true |- _ => apply len_is_eq in X end.
   repeat split; try assumption; lia.
+Qed.
+
+Lemma wf_grid p : wf_period p = true ->
+  p_nx p mod 1000 + grid_thousands (nth 0 (p_grid p) 0) = p_nx p
+  /\ p_ny p mod 1000 + grid_thousands (nth 1 (p_grid p) 0) = p_ny p
+  /\ 0 <= p_nx p mod 1000 <= 999 /\ 0 <= p_ny p mod 1000 <= 999.
+Proof.
+  unfold wf_period. intros H. repeat (apply andb_true_iff in H as [H ?]).
+  match goal with X : grid_ok p = true |- _ => unfold grid_ok in X; apply andb_true_iff in X as [G0 G1] end.
+  apply Z.eqb_eq in G0. apply Z.eqb_eq in G1.
+  pose proof (Z.div_mod (p_nx p) 1000 ltac:(lia)). pose proof (Z.div_mod (p_ny p) 1000 ltac:(lia)).
+  pose proof (Z.mod_pos_bound (p_nx p) 1000 ltac:(lia)). pose proof (Z.mod_pos_bound (p_ny p) 1000 ltac:(lia)).
+  repeat split; lia.
 Qed.
 
 Lemma table_len_nonneg ls : 0 <= table_len ls.
@@ -188,6 +201,7 @@ Proof.
   intros H. destruct (wf_period_parts p H) as (Ht & Hg & Hf & Hv & Hx & Hy & Hz & Hh & Hfit & Hpad & Hl).
   pose proof (table_len_nonneg (p_levels p)) as Htl.
   assert (Hlh : 108 <= lenh p) by (unfold lenh; lia).
+  destruct (wf_grid p H) as (Gx & Gy & Mx & My).
   unfold dec_period, enc_period, enc_index. rewrite <- !app_assoc.
   rewrite (take_app 10 _ _ Ht). cbn [obind]. rewrite takeI2 by lia. cbn [obind].
   rewrite (take_app 2 _ _ Hg). cbn [obind].
@@ -201,9 +215,9 @@ Proof.
   rewrite takeI3 by lia. cbn [obind]. rewrite takeI3 by lia. cbn [obind].
   rewrite takeI3 by (unfold lenZ in *; lia). cbn [obind].
   rewrite (take_app 2 _ _ Hv). cbn [obind]. rewrite takeI4 by lia. cbn [obind].
-  replace ((0 <=? lenZ (p_levels p)) && (0 <=? p_nx p) && (0 <=? p_ny p)) with true
+  replace ((0 <=? lenZ (p_levels p)) && (0 <=? p_nx p mod 1000) && (0 <=? p_ny p mod 1000)) with true
     by (symmetry; unfold lenZ; rewrite !andb_true_iff, !Z.leb_le; lia).
-  cbn [guard obind]. unfold lenZ at 1. rewrite Nat2Z.id.
+  cbn [guard obind]. cbv zeta. rewrite Gx, Gy. unfold lenZ at 1. rewrite Nat2Z.id.
   rewrite (dec_table_enc (ncell p) _ _ Hl). cbn [obind].
   rewrite tbl_len_lent. fold (lenh p). fold (ncell p).
   replace ((lenh p =? lenh p) && (lenh p <=? ncell p)) with true
@@ -308,7 +322,8 @@ Proof.
   intros H. destruct (wf_period_parts p H) as (Ht & Hg & Hf & Hv & Hx & Hy & Hz & Hh & Hfit & Hpad & Hl).
   pose proof (table_len_nonneg (p_levels p)) as Htl.
   destruct (fmt2 0 ltac:(lia)) as [L0 _]. destruct (fmt4 0 ltac:(lia)) as [L1 _].
-  destruct (fmt3 (p_nx p) ltac:(lia)) as [L2 _]. destruct (fmt3 (p_ny p) ltac:(lia)) as [L3 _].
+  destruct (wf_grid p H) as (_ & _ & Mx & My).
+  destruct (fmt3 (p_nx p mod 1000) ltac:(lia)) as [L2 _]. destruct (fmt3 (p_ny p mod 1000) ltac:(lia)) as [L3 _].
   destruct (fmt3 (lenZ (p_levels p)) ltac:(unfold lenZ in *; lia)) as [L4 _].
   destruct (fmt4 (lenh p) ltac:(unfold lenh in *; lia)) as [L5 _].
   pose proof (enc_table_len _ _ Hl) as Lt.
